@@ -6,6 +6,7 @@ package evalfilter
 
 import (
 	"os"
+	"regexp"
 	"strconv"
 	"strings"
 	"time"
@@ -24,6 +25,7 @@ func init() {
 	zzsv.Register("ZZ_C17_Convert", ZZ_C17_Convert)
 	zzsv.Register("ZZ_C17_Arity", ZZ_C17_Arity)
 	zzsv.Register("ZZ_C17_Time", ZZ_C17_Time)
+	zzsv.Register("ZZ_C17_ReplaceMatch", ZZ_C17_ReplaceMatch)
 }
 
 var zzNumFloats = []float64{0.5, -2.5, 10, 100.25, 9, 1e21}
@@ -257,10 +259,25 @@ func ZZ_C17_SplitJoin(sv *zzsv.T) {
 // ZZ_C17_Convert: len, lower, upper, trim, string, int, type behave as
 // documented (on the printed form) for strings and integers.
 func ZZ_C17_Convert(sv *zzsv.T) {
-	fns := []string{"lower", "upper", "trim", "string", "int", "type", "len"}
+	fns := []string{"lower", "upper", "trim", "string", "int", "type", "len", "float"}
 	fn := fns[sv.Choice("fn", len(fns))]
 	var arg zv
-	switch sv.Choice("argtype", 4) {
+	printedArr := ""
+	at := sv.Choice("argtype", 7)
+	// (float() parses text: symbolic bytes would be enumerated string by
+	// string - the concrete texts of case 5 stand in for them)
+	sv.Assume(!(fn == "float" && at == 0))
+	switch at {
+	case 4: // floats: representative values (their printed forms are the subject)
+		fl := []float64{2.5, -0.5, 100, 1e21, 0}
+		arg = zFloat(fl[sv.Choice("f", len(fl))])
+	case 5: // numeric and non-numeric text for the conversions
+		txt := []string{"3.5", "1e3", "-2", " 1", "0x10", "Inf", "abc", "12abc", "+7", "1_0", ".5", "9223372036854775808"}
+		arg = zStr(txt[sv.Choice("txt", len(txt))])
+	case 6: // an array: converted through its printed form, counted by elements
+		i := []int64{7, -12}[sv.Choice("el", 2)]
+		arg = zArr(zInt(i), zStr("Ab"))
+		printedArr = "[" + strconv.FormatInt(i, 10) + ", Ab]"
 	case 0:
 		s := sv.String("s", sv.Choice("s.len", sv.Param("conv.maxlen", 2, 3)+1))
 		for j := 0; j < len(s); j++ {
@@ -271,6 +288,10 @@ func ZZ_C17_Convert(sv *zzsv.T) {
 		i := sv.Int64("i")
 		sv.Assume(i >= -999)
 		sv.Assume(i <= 9999)
+		if fn == "float" {
+			// (the text-to-float conversion is evaluated value by value)
+			sv.Assume(i >= -2 && i <= 12)
+		}
 		arg = zInt(i)
 	case 2:
 		arg = zBool(sv.Bool("b"))
@@ -301,8 +322,24 @@ func ZZ_C17_Convert(sv *zzsv.T) {
 		}
 	case tNull:
 		printed = "null"
+	case tFloat:
+		printed = strconv.FormatFloat(arg.f, 'f', -1, 64)
+	case tArray:
+		printed = printedArr
 	}
 	switch fn {
+	case "float":
+		f, perr := strconv.ParseFloat(printed, 64)
+		if arg.t == tInt {
+			// (the conversion of a symbolic integer's decimal form is exact
+			// below 2^53)
+			f, perr = float64(arg.i), nil
+		}
+		if perr != nil {
+			sv.Assert("C17.convert.float.null", zzSame(sv, out, zNull()))
+		} else {
+			sv.Assert("C17.convert.float.value", zzSame(sv, out, zFloat(f)))
+		}
 	case "lower":
 		sv.Assert("C17.convert.lower", zzSame(sv, out, zStr(strings.ToLower(printed))))
 	case "upper":
@@ -314,7 +351,11 @@ func ZZ_C17_Convert(sv *zzsv.T) {
 	case "type":
 		sv.Assert("C17.convert.type", zzSame(sv, out, zStr(zzTypeNames[arg.t])))
 	case "len":
-		sv.Assert("C17.convert.len", zzSame(sv, out, zInt(int64(len([]rune(printed))))))
+		if arg.t == tArray {
+			sv.Assert("C17.convert.len", zzSame(sv, out, zInt(int64(len(arg.arr)))))
+		} else {
+			sv.Assert("C17.convert.len", zzSame(sv, out, zInt(int64(len([]rune(printed))))))
+		}
 	case "int":
 		n, perr := strconv.ParseInt(printed, 10, 64)
 		if perr != nil {
@@ -514,4 +555,66 @@ func ZZ_C17_Time(sv *zzsv.T) {
 		want2 = zStr(ts2.Weekday().String())
 	}
 	sv.Assert("C17.time.zone_follows_configuration", err2 == nil && zzSame(sv, out2, want2))
+}
+
+// zzOver makes a symbolic string of n bytes over the given alphabet.
+func zzOver(sv *zzsv.T, name string, n int, alphabet string) string {
+	s := sv.String(name, n)
+	for j := 0; j < len(s); j++ {
+		var in []bool
+		for k := 0; k < len(alphabet); k++ {
+			in = append(in, s[j] == alphabet[k])
+		}
+		sv.Assume(sv.Any(in...))
+	}
+	return s
+}
+
+var zzReplPatterns = []string{"b", "ab", "a+", "(a)(b)?", "^a", "b$", "[ab]", "a|b", "."}
+
+// ZZ_C17_ReplaceMatch: replace(s, re, v) replaces every match of the
+// pattern in s - whether the pattern is a plain word or uses regexp syntax,
+// written as a regexp literal or held in a string - with v expanded the way
+// the host's regexp library expands replacement templates ($1, $0, $$);
+// match(s, re) is true exactly when the pattern matches one of the lines of
+// s (surrounding blanks removed). Inputs and replacements are symbolic.
+func ZZ_C17_ReplaceMatch(sv *zzsv.T) {
+	pat := zzReplPatterns[sv.Choice("pattern", len(zzReplPatterns))]
+	s := zzOver(sv, "s", sv.Choice("s.len", sv.Param("repl.maxlen", 3, 4)+1), "ab \n")
+	fn := sv.Choice("fn", 2)
+	asLiteral := sv.Choice("pattern_as_literal", 2) == 1
+	patExpr := "p"
+	if asLiteral {
+		patExpr = "/" + pat + "/"
+	}
+	e := New("")
+	e.SetVariable("s", &object.String{Value: s})
+	e.SetVariable("p", &object.String{Value: pat})
+	re := regexp.MustCompile(pat)
+	if fn == 0 {
+		v := zzOver(sv, "v", sv.Choice("v.len", 3), "$1x")
+		e.SetVariable("v", &object.String{Value: v})
+		e.Script = "return replace(s, " + patExpr + ", v);"
+		sv.Note("script", e.Script)
+		sv.Assume(e.Prepare() == nil)
+		out, err := e.Execute(nil)
+		zzDescribe(sv, "result", out, err)
+		want := re.ReplaceAllString(s, v)
+		sv.Assert("C17.replace", err == nil && zzSame(sv, out, zStr(want)))
+		// the input is left unchanged
+		sv.Assert("C17.replace.input_unchanged", zzSame(sv, e.GetVariable("s"), zStr(s)))
+		return
+	}
+	e.Script = "return match(s, " + patExpr + ");"
+	sv.Note("script", e.Script)
+	sv.Assume(e.Prepare() == nil)
+	out, err := e.Execute(nil)
+	zzDescribe(sv, "result", out, err)
+	want := false
+	for _, line := range strings.Split(s, "\n") {
+		if re.MatchString(strings.TrimSpace(line)) {
+			want = true
+		}
+	}
+	sv.Assert("C17.match", err == nil && zzSame(sv, out, zBool(want)))
 }
